@@ -97,6 +97,8 @@ func CallbackClassics() []*chanmodel.Scenario {
 		// a callback closes a channel with several parked parties; the first one woken at once uses the channel again
 		withCbs(scn([]int{0}, []int{1}, []op{send(0, 51), recv2(0)}, []op{send(0, 52)}), chanop(cls(0), false)),
 		withCbs(scn([]int{0}, []int{1}, []op{recv2(0), sel(-1, -1, 0, 53, -1, 0, true)}, []op{recv2(0)}), chanop(cls(0), true)),
+		// the same JavaScript object handed to exposed functions again and again, mutated in between
+		withCbs(scn([]int{0}, nil, []op{recv2(0)}), chanmodel.Callback{Kind: "echoobj"}, chanmodel.Callback{Kind: "echoobj"}, chanmodel.Callback{Kind: "echoobj"}, chanop(send(0, 61), false)),
 		// exposing a function switches the deadlock report off
 		withCbs(scn([]int{0}, nil, []op{base("ident"), recv(0)}), chanmodel.Callback{Kind: "echo"}),
 	}
